@@ -208,8 +208,64 @@ def deep_chains(ctx):
     return outs
 
 
+def gen_tod_calendar(rng):
+    """a calendar whose validity begins / ends at a TIME OF DAY (outside the scheduler model, whose capacity is a
+    function of the day): joins Monday 12:00, leaves Friday 15:30, ..."""
+    I = lambda v: ['i', v]
+    tod = lambda: rng.choice([6, 9, 12, 15, 18]) * sc.H + rng.choice([0, 0, 30 * 60_000_000])
+    st = sc.day_us(rng.randint(-6, 12), tod()) if rng.random() < 0.8 else None
+    en = sc.day_us(rng.randint(13, 50), tod()) if rng.random() < 0.6 or st is None else None
+    inner = rng.choice([sc.wk([0, 1, 2, 3, 4], I(8), st, en), sc.wk([0, 1, 2, 3, 4, 5, 6], I(rng.choice([4, 8])), st, en),
+                        ['fixed', I(rng.choice([2, 8])), st, en]])
+    r = rng.random()
+    if r < 0.5:
+        return inner
+    if r < 0.8:
+        return ['binc', 'or', inner, sc.wk([1, 3], I(2))]
+    return ['binc', 'add', inner, sc.wk([0, 2, 4], I(4))]
+
+
+def robustness_stream(ctx):
+    """calc on inputs outside the model's domain: only `returned or RuntimeError, in bounded time` is judged"""
+    n = 60 if ctx.tier == 'quick' else 1500
+    cases = []
+    for _ in range(n):
+        c = copy.deepcopy(sc.gen_case(ctx.rng))
+        c['edit_calendars'] = []
+        c['outcome_only'] = True
+        names = sorted(set(t['resource'] for t in c['tasks']), key=str)
+        c['resources'] = [{'name': nm, 'cal': gen_tod_calendar(ctx.rng)} for nm in names if ctx.rng.random() < 0.8]
+        # clock and bound inside a day, near the boundaries of the calendars
+        if ctx.rng.random() < 0.7:
+            c['pbound'] = sc.day_us(ctx.rng.randint(-6, 14), ctx.rng.choice([0, 10, 13, 16, 19]) * sc.H)
+            c['now'] = c['pbound'] + ctx.rng.choice([-3 * sc.DAY, -2 * sc.H, 0, sc.H, 5 * sc.H])
+            c['now2'] = None
+            for t in c['tasks']:
+                if t.get('end') is not None and t['end'] > c['now']:
+                    t['end'] = None
+        cases.append(c)
+    outs = []
+    for i in range(0, len(cases), 20):
+        outs += ctx.impl_run('sched_impl', cases[i:i + 20])
+    stat = {'cases': len(cases), 'returned': 0, 'runtime_error': 0, 'crash': 0, 'timeout': 0, 'not_built': 0}
+    for c, o in zip(cases, outs):
+        if not o.get('outcome_only'):
+            stat['not_built'] += 1
+            continue
+        oc = o['outcome']
+        stat['returned' if oc == 0 else 'runtime_error' if oc == 1 else 'timeout' if oc == 20 else 'crash'] += 1
+        if oc == 20:
+            ctx.failure('C14/%s/timeout' % c['dir'], 'calc did not terminate within the alarm (%s scheduler, calendar with time-of-day '
+                        'bounds)' % c['dir'], {'case': c, 'observed': o})
+        elif oc >= 10:
+            ctx.failure('C14/%s/crash' % c['dir'], 'calc raised %s (%s scheduler, calendar with time-of-day bounds): only RuntimeError '
+                        'is a diagnosis' % (o.get('exc'), c['dir']), {'case': c, 'observed': o})
+    return stat
+
+
 def run(ctx):
     ctx.coverage_deep = deep_chains(ctx)
+    robust = robustness_stream(ctx)
     stats = {}
     generated = {}
 
@@ -232,11 +288,13 @@ def run(ctx):
     dist = dict(ctx.coverage.get('distribution') or {})
     dist['classes_by_analysis_of_the_abstract_input'] = stats
     dist['extra_stream_by_intended_class'] = generated
+    dist['robustness_stream_calendars_with_time_of_day_bounds'] = robust
     ctx.coverage['distribution'] = dist
     ctx.coverage['rule'] = (ctx.coverage.get('rule') or '') + \
         '; plus a stream of unschedulable inputs of each class (outside predecessor without start/end, fixed end after the ' \
         'clock, never-available or bounded calendar on a leaf, cycles closing through the hierarchy in 4 shapes, entered ' \
-        'from either side); the class of every case is recomputed from the abstract input and counted with its outcome'
+        'from either side); the class of every case is recomputed from the abstract input and counted with its outcome' \
+        '; plus a robustness stream outside the model (calendars whose validity bounds carry a time of day): outcome class only'
     missing = [c for c in CLASSES if stats.get(c, {}).get('runtime_error', 0) == 0]
     if missing:
         raise sc.InfraError('no RuntimeError case of class(es) %s ran: the generator does not reach them' % ', '.join(missing))
@@ -251,4 +309,12 @@ def run(ctx):
 
 
 def replay(ctx, rep):
+    case = rep['case']['case']
+    if case.get('outcome_only'):
+        o = ctx.impl_run('sched_impl', [case])[0]
+        print('replay: implementation outcome %s %s' % (o.get('outcome'), o.get('exc', '')))
+        if o.get('outcome', 0) >= 10:
+            ctx.failure('C14/%s/replay' % case['dir'], 'calc did not end with a schedule or a RuntimeError on the replayed case', {'case': case, 'observed': o})
+        ctx.coverage.update(evaluations=1, distinct_nontrivial=1, rule='replay of one case of the robustness stream', samples=[case])
+        return
     sc.replay_generic(ctx, rep, FAIL, MISMATCH, ID)
